@@ -57,7 +57,7 @@ func init() {
 		case "C04":
 			mods = []string{"Verif.Properties.C04", "Verif.Properties.C01", "Verif.Properties.C02", "Verif.Properties.C03"}
 		case "C05":
-			mods = []string{"Verif.Properties.C01", "Verif.Properties.C02"}
+			mods = []string{"Verif.Properties.C05", "Verif.Properties.C01", "Verif.Properties.C02"}
 		case "C06":
 			mods = []string{"Verif.Properties.C06", "Verif.Properties.C02"}
 		case "C07":
